@@ -29,6 +29,7 @@ var hook struct {
 	at    float64
 	calls int
 	pre   bool // schedule engine: deterministic "pass" while the prefix is loaded
+	post  bool // schedule engine: deterministic "drop" in a scenario's sequential epilogue
 }
 
 const passValue = 1 - 1.0/(1<<53)
@@ -38,6 +39,9 @@ func installHook() {
 		if vsched.Managed() {
 			if hook.pre {
 				return passValue, true
+			}
+			if hook.post {
+				return 0, true
 			}
 			c := vsched.Choose(2)
 			vsched.Log("H %d %d", vsched.ThreadID(), c)
